@@ -240,6 +240,52 @@ func exclusion(kind int, other string) {
 	}
 }
 
+// nested sections: two goroutines that each open a locked section on the same locker exclude each
+// other like two sections on a scope do
+func nestedExclusion(kind int) {
+	id := fmt.Sprintf("two nested LockData sections on one locker of a %s scope", []string{"root", "child"}[kind])
+	root := datascope.New(map[interface{}]interface{}{"n": 0})
+	var scp app.DataScope = root
+	if kind == 1 {
+		scp = datascope.NewChild(root, map[interface{}]interface{}{"n": 0})
+	}
+	outer := scp.LockData()
+	first := outer.LockData()
+	first.SetValue("n", 1)
+	entered := make(chan struct{}, 1)
+	finished := make(chan struct{}, 1)
+	go func() {
+		defer func() {
+			if r := recover(); r != nil {
+				add("no-panic", id, fmt.Sprint(r))
+			}
+			finished <- struct{}{}
+		}()
+		second := outer.LockData()
+		entered <- struct{}{}
+		v, _ := second.Value("n").(int)
+		second.SetValue("n", v+1)
+		second.Commit()
+	}()
+	select {
+	case <-entered:
+		add("locked-section-is-exclusive", id, "the second nested section was entered while the first was still open")
+	case <-time.After(20 * time.Millisecond):
+	}
+	first.SetValue("n", 10)
+	first.Commit()
+	select {
+	case <-finished:
+	case <-time.After(5 * time.Second):
+		add("no-block-forever", id, "the second nested section did not finish within 5 s after the first committed")
+		return
+	}
+	if v := outer.Value("n"); v != 11 && v != 2 {
+		add("no-lost-update", id, fmt.Sprintf("n = %v", v))
+	}
+	outer.Commit()
+}
+
 func lostUpdate(kind int) {
 	root := datascope.New(map[interface{}]interface{}{"n": 0})
 	var scp app.DataScope = root
@@ -311,6 +357,9 @@ func main() {
 			wg.Add(1)
 			go func(kind int, other string) { defer wg.Done(); exclusion(kind, other) }(kind, other)
 		}
+		res.Cases++
+		wg.Add(1)
+		go func(kind int) { defer wg.Done(); nestedExclusion(kind) }(kind)
 		res.Cases++
 		wg.Add(1)
 		go func(kind int) { defer wg.Done(); lostUpdate(kind) }(kind)
